@@ -449,8 +449,18 @@ def collect_inputs_for_node(
     Returns:
         Dict mapping input names to their values
     """
+    from hypergraph.nodes.graph_node import GraphNode
+
+    # A mapping GraphNode broadcasts every non-mapped input to all of its items.
+    # Signature defaults of the inner graph must not travel that way: each item's
+    # run resolves (and deep-copies) them itself, exactly like runner.map does.
+    broadcast_defaults_skipped = isinstance(node, GraphNode) and node.map_config is not None
     inputs = {}
     for param in node.inputs:
+        if broadcast_defaults_skipped and param not in node.map_config[0]:
+            source, _ = get_value_source(param, node, graph, state, provided_values)
+            if source == ValueSource.DEFAULT:
+                continue
         inputs[param] = _resolve_input(param, node, graph, state, provided_values)
     return inputs
 
